@@ -5,3 +5,13 @@ claim("C04", "exploration",
       "Trusts: the Go race detector and runtime.Stack dumps; hooks (build tag verif) only add delays/yields/trace at program points where goroutines are preemptible anyway; Python harness. Known findings C04-F2/F3 (shared random generator) are reported as KNOWN-FINDING lines.",
       "differential runs + hang classifier on goroutine dumps + race detector + online streaming monitor",
       "DESIGN.md section 3, C04")
+claim("C17", "fault_enumeration",
+      "Every cell of an enumerated fault grid (7 fault kinds x sub-kinds x positions around batch boundaries / file index / verb position / begin-main-end) is executed under schedule variants (batch sizes, GOMAXPROCS=1, perturbation seeds, a forced 30 ms delay at each error-post / marker-forward / done site) and judged by: terminates (goroutine-state deadlock classifier, CPU/output budgets), exit status != 0, an `mlr` diagnostic on stderr (offending path for open-time faults). Each cell's fault-free control run must exit 0 with complete output. Faults are injected for real: directories, damaged compressed streams, strace-injected EIO/ENOSPC (verified to have fired), /dev/full, closed pipes, ENOTDIR/EISDIR targets, pipe commands that stop reading.",
+      "Trusts strace's injection and the hang classifier; SIGPIPE on stdout counts as non-zero status by Unix convention; power loss and network inputs out of reach. Fixed defects are listed in known_findings.jsonl as fixed (suppress nothing).",
+      "fault injection grid + exit-status/diagnostic/termination oracle over recorded runs",
+      "DESIGN.md section 3, C17")
+claim("C19", "fault_enumeration",
+      "Directory inspection after SIGKILL at every hit of every in-place hook site, after every n-th written record and every flush (hook enumerator), after SIGKILL at entry to the N-th file-system system call for all N until the run completes (hook-free strace enumerator), after failures through the normal error path at file index i, and after success: each named file must be byte-for-byte its original or its transformed content (decompressing .gz/.z), files after the failing one untouched, the prefix property across the file list, no temp file left unless killed, mode preserved, refusals before any modification.",
+      "Process crashes only (the file system changes only at system calls); expected content comes from the guard-off binary run without -I on each file alone; known finding C19-F1 (direct os.Exit sites leave the temp file) is reported as KNOWN-FINDING.",
+      "crash-point enumeration (hook SIGKILL + strace syscall SIGKILL) + directory-state oracle",
+      "DESIGN.md section 3, C19")
